@@ -25,7 +25,8 @@ theorem freeConnOf_facts (w : W) (o : Oid) (id client : Nat) (inv : Inv w) (hio 
     (∀ id', id' ≠ id → findConn (freeConnOf w o id client) id' = findConn w id') ∧
     (∀ o', o' ≠ o → (freeConnOf w o id client).inter o' = w.inter o') ∧
     (freeConnOf w o id client).users.map List.length = w.users.map List.length ∧
-    (freeConnOf w o id client).mode = w.mode ∧ (freeConnOf w o id client).ctxDepth = w.ctxDepth := by
+    (freeConnOf w o id client).mode = w.mode ∧ (freeConnOf w o id client).ctxDepth = w.ctxDepth ∧
+    (freeConnOf w o id client).trace = w.trace := by
   have hlive := inv.live o id hio
   cases hu : w.users with
   | none =>
@@ -89,8 +90,8 @@ theorem freeConnOf_facts (w : W) (o : Oid) (id client : Nat) (inv : Inv w) (hio 
     simp only [hu]
     split
     · exact ⟨⟨inv1.crashed, inv1.inError, inv1.inMeh, inv1.live, inv1.inj, inv1.len, inv1.cur, inv1.cur0, inv1.bound⟩,
-        hf, hi1, hl1, rfl, rfl⟩
-    · exact ⟨inv1, hf, hi1, hl1, rfl, rfl⟩
+        hf, hi1, hl1, rfl, rfl, rfl⟩
+    · exact ⟨inv1, hf, hi1, hl1, rfl, rfl, rfl⟩
 
 theorem removeInteractive_step (rh : HookFn) (hrh : HookOK rh) (w : W) (o : Oid) (d : Bool) :
     Step w (removeInteractive rh w o d) := by
@@ -135,8 +136,8 @@ theorem removeInteractive_step (rh : HookFn) (hrh : HookOK rh) (w : W) (o : Oid)
         have hio1 : (mapConn w id markClosing).inter o = some id := hio
         have hio2 := r2.owner id _ o hfc1 rfl hio1
         rw [useConn_live _ id (by rw [hc2]; rfl)]
-        obtain ⟨inv3, f3, i3, l3, m3, x3⟩ := freeConnOf_facts _ o id c.client inv2 hio2
-        refine ⟨inv3, ?_, ?_, ?_, ?_, ?_⟩
+        obtain ⟨inv3, f3, i3, l3, m3, x3, t3⟩ := freeConnOf_facts _ o id c.client inv2 hio2
+        refine ⟨inv3, ?_, ?_, ?_, ?_, ?_, (r1.tr.trans r2.tr).trans (TrExt.of_eq t3)⟩
         · -- records that were CLOSING before this call are not ours: they survive
           intro id' c' hc' hcl'
           have hne : id' ≠ id := by
@@ -170,7 +171,7 @@ theorem destructObject_step (rh : HookFn) (hrh : HookOK rh) (w : W) (o : Oid) :
 
 
 theorem touch_same (w : W) (o : Oid) : Same w (touch w o) := by
-  cases o <;> exact ⟨rfl, rfl, rfl, rfl, rfl, rfl, rfl, rfl, rfl⟩
+  cases o <;> exact ⟨rfl, rfl, rfl, rfl, rfl, rfl, rfl, rfl, rfl, by trx⟩
 
 theorem runOps_step (rh : HookFn) (hrh : HookOK rh) (self : Oid) :
     ∀ (ops : List Op) (w : W), Step w (runOps rh self ops w).1 := by
@@ -182,8 +183,7 @@ theorem runOps_step (rh : HookFn) (hrh : HookOK rh) (self : Oid) :
     cases op with
     | ok => exact ih w
     | err =>
-      show Step w (errorHandler (emit w _) _)
-      exact Step.trans (emit_same _ _).step (errorHandler_step _ _)
+      exact raise_step w self.name
     | cerr =>
       show Step w (runOps rh self rest (popCtx (caughtError (pushCtx (emit w _)) _))).1
       exact Step.trans (emit_same _ _).step (Step.trans (Step.bracket (caughtError_step _ _)) (ih _))
@@ -206,7 +206,7 @@ theorem runOps_step (rh : HookFn) (hrh : HookOK rh) (self : Oid) :
     | co d tag =>
       show Step w (runOps rh self rest _).1
       refine Step.trans ?_ (ih _)
-      exact Same.step ⟨rfl, rfl, rfl, rfl, rfl, rfl, rfl, rfl, rfl⟩
+      exact Same.step ⟨rfl, rfl, rfl, rfl, rfl, rfl, rfl, rfl, rfl, by trx⟩
     | hb n =>
       show Step w (runOps rh self rest (setHeartBeat (emit w _) self n)).1
       exact Step.trans (Step.trans (emit_same _ _).step (setHeartBeat_same _ _ _).step) (ih _)
@@ -216,7 +216,7 @@ theorem runOps_step (rh : HookFn) (hrh : HookOK rh) (self : Oid) :
     | meh m =>
       show Step w (runOps rh self rest _).1
       refine Step.trans ?_ (ih _)
-      exact Same.step ⟨rfl, rfl, rfl, rfl, rfl, rfl, rfl, rfl, rfl⟩
+      exact Same.step ⟨rfl, rfl, rfl, rfl, rfl, rfl, rfl, rfl, rfl, by trx⟩
 
 /-- every hook keeps the invariant, for every nesting fuel and every script oracle -/
 theorem runHook_ok (S : Scripts) : ∀ fuel, HookOK (runHook S fuel) := by
